@@ -412,6 +412,23 @@ func RunC15(r *core.Run) {
 				return
 			}
 		}
+		// a user / ttl / method / maddr parameter on ONE side only, placed behind more than a hundred
+		// other parameters that both sides share: still "present in both or neither"
+		{
+			X := A.Clone()
+			for i := 0; len(X.Params) < 100+rr.Intn(30); i++ {
+				X.Params = append(X.Params, gen.KV{K: fmt.Sprintf("f%dq", i), V: "1", HasVal: true})
+			}
+			Y := X.Clone()
+			Y.Params = append(Y.Params, []gen.KV{{K: "user", V: "phone", HasVal: true}, {K: "TTL", V: "3", HasVal: true}, {K: "method", V: "INVITE", HasVal: true}, {K: "Maddr", V: "h2", HasVal: true}}[rr.Intn(4)])
+			xb, yb := []byte(X.String()), []byte(Y.String())
+			x, y := rawCmp(xb, yb, sipsp.URICmpSkipHeaders), rawCmp(yb, xb, sipsp.URICmpSkipHeaders)
+			w.Eval(2)
+			if x.pan == "" && y.pan == "" && x.err == 0 && y.err == 0 && (x.eq || y.eq) {
+				fail("long-list-one-sided", fmt.Sprintf("%d shared parameters, then %q on one side only: equal=%v/%v", len(X.Params), Y.Params[len(Y.Params)-1].K, x.eq, y.eq), yb)
+				return
+			}
+		}
 		w.Nontrivial(core.HashBytes(a))
 		w.Inc("long_lists")
 	})
@@ -460,10 +477,14 @@ func RunC15(r *core.Run) {
 			} else if oneSided {
 				sec = "extra=1&"
 			}
-			sec += "p="
 			fill := byte('a')
+			if upper && !hdrs {
+				fill = 'A' // (parameter values are case-insensitive; for headers only the NAME is)
+			}
 			if upper {
-				fill = 'A'
+				sec += "P="
+			} else {
+				sec += "p="
 			}
 			b := []byte("sip:h")
 			if hdrs {
